@@ -295,8 +295,11 @@ func runC04(env *lib.Env, rep *lib.Report) {
 	cfgs = append(cfgs, histCfg{Name: "leaf3-int3/t1x8", Opt: worldOpt{Leaf: 3, Internal: 3}, Seed: "t1x8", Alpha: alpha, Depth: d, TickChoice: true})
 	// two statements before the flush, inserts only, from the two smallest seeds
 	ins := alphaOpt{Tables: []string{"t1", "t2"}, Inserts: []int{1, 9}}
+	// (with a refused CREATE TABLE among them: whatever it takes - a page, a row id, an LSN - is in no log record)
+	insRefused := ins
+	insRefused.FailingCreate = true
 	cfgs = append(cfgs, histCfg{Name: "real/empty/inserts", Seed: "empty", Alpha: ins, Depth: d + 2, TickChoice: true},
-		histCfg{Name: "real/t1x8/inserts", Seed: "t1x8", Alpha: ins, Depth: d + 1, TickChoice: true})
+		histCfg{Name: "real/t1x8/inserts", Seed: "t1x8", Alpha: insRefused, Depth: d + 1, TickChoice: true})
 	rep.Bounds["history depth before the torn flush"] = d
 	rep.Bounds["flush kinds"] = "timer tick, CREATE TABLE's final flush, clean shutdown, the flush that ends recovery, a timer tick that arrives while one more INSERT/UPDATE/DELETE is between its page changes and its log append (two seeds); then a second torn flush inside the recovery of the first torn image"
 	rep.Bounds["torn states per flush"] = "all 2^|D| subsets of the flush's page writes with the header pending, plus the completed flush (|D| <= 10, else singletons/co-singletons and the tag capped)"
